@@ -53,6 +53,10 @@ SEEDS = {
     "email": ["a@b", "a@", "@", "ab", "", "a@@b", "a b@c", "a＠b"],
     "idn-hostname": ["example.com", "xn--nxasmq6b", "a..b", "-a.com", "実例.com", "a" * 64 + ".com", ".", "", "xn--", "a_b.com",
                      "ß.de", "‍", "A.COM", "a.b.c." + "d" * 63, "\udc80" if False else "à", "١.com"],
+    "huge-fields": ["2147483648:00:00", "99999999999999999999:00:00", "00:2147483648:00", "00:00:4294967296", "-1:00:00",
+                    "1e5:00:00", "99999999999-01-01", "2020-99999999999-01", "2020-01-99999999999", "99999999999999.1.1.1",
+                    "1.2.3.99999999999999999999", "99999999999::", "::99999999999", "1" * 100 + ":00:00", "9" * 150,
+                    "0:0:0", "٢٣:٥٩:٥٩", "12:34:56\n", "4294967296:4294967296:4294967296"],
     "time": ["12:34:56", "24:00:00", "12:34", "12:34:56Z", "1:2:3", "12:60:00", "12:34:60", "12:34:61", "00:00:00", "١٢:٣٤:٥٦",
              "12:34:56.5", " 12:34:56", "12:34:56 ", "12-34-56", ""],
 }
